@@ -13,67 +13,84 @@
 (* start tag and the comment of its end tag (empty when both tags share a  *)
 (* comment); blocks are reported in source order.                          *)
 (***************************************************************************)
-EXTENDS Integers, Sequences, FiniteSets, TLC, Json
+EXTENDS Integers, Sequences, FiniteSets, TLC, Json, SequencesExt
 
-CONSTANTS MaxItems, MaxTags, ItemKinds
+CONSTANTS MaxItems, MaxTags, ItemKinds,
+          CommentKinds,   \* kinds of comment syntax in one file ({"a"}; Markdown: {"a", "b"} = [//]: # links and HTML comments)
+          SplitKinds      \* TRUE = deviation M1 of the Markdown parser: every comment kind is paired on a stack of its own
 
-VARIABLES items,    \* input: sequence of item records [k, tags]
-          ti,       \* cursor into the tag stream
+VARIABLES items,    \* input: sequence of item records [k, tags, ck]
+          phase,    \* which comment kind is being paired (always 1 unless SplitKinds)
+          ti,       \* cursor into the tag stream of the current phase
           stack,    \* open start tags (tag indices)
           blocks,   \* sequence of [s, e] tag-index pairs, in completion order, then sorted
           err,      \* "none" | "unexpected_end" | "unclosed"
           pc        \* "scan" | "done"
 
-vars == <<items, ti, stack, blocks, err, pc>>
+vars == <<items, phase, ti, stack, blocks, err, pc>>
 
 \* item kinds: "code", "str" (decoy tags inside a string literal / markup), comments with tag lists
 TagLists == {<<>>, <<"S">>, <<"E">>, <<"S", "E">>, <<"E", "S">>, <<"S", "S">>, <<"E", "E">>}
-Items == [k : {"code", "str"}, tags : {<<>>}] \cup [k : {"cmt"}, tags : TagLists]
+Items == [k : {"code", "str"}, tags : {<<>>}, ck : {"-"}] \cup [k : {"cmt"}, tags : TagLists, ck : CommentKinds]
 
 \* the tag stream of the comments: sequence of [item, pos, t]
 RECURSIVE StreamFrom(_, _)
 StreamFrom(its, n) ==
   IF n > Len(its) THEN <<>>
-  ELSE (IF its[n].k = "cmt" THEN [p \in 1..Len(its[n].tags) |-> [item |-> n, pos |-> p, t |-> its[n].tags[p]]] ELSE <<>>)
+  ELSE (IF its[n].k = "cmt" THEN [p \in 1..Len(its[n].tags) |-> [item |-> n, pos |-> p, t |-> its[n].tags[p], ck |-> its[n].ck]] ELSE <<>>)
        \o StreamFrom(its, n + 1)
 Stream(its) == StreamFrom(its, 1)
 
 Init ==
   /\ items \in UNION {[1..n -> {i \in Items : i.k \in ItemKinds}] : n \in 1..MaxItems}
   /\ Len(Stream(items)) <= MaxTags
-  /\ ti = 1 /\ stack = <<>> /\ blocks = <<>> /\ err = "none" /\ pc = "scan"
+  /\ phase = 1 /\ ti = 1 /\ stack = <<>> /\ blocks = <<>> /\ err = "none" /\ pc = "scan"
 
-Cur == Stream(items)[ti]
+SetToSeqP(S) == SetToSeq(S)
+SetToSeqK == IF CommentKinds = {"a", "b"} THEN <<"a", "b">> ELSE <<"a">>
+\* the phases: one over the whole stream, or (SplitKinds) one per comment kind, in a fixed order
+KindSeq == IF SplitKinds THEN SetToSeqK ELSE <<"*">>
+\* indices (into the whole stream) of the tags handled in phase ph
+PhaseIdx(ph) == SelectSeq([k \in 1..Len(Stream(items)) |-> k],
+                          LAMBDA k : KindSeq[ph] = "*" \/ Stream(items)[k].ck = KindSeq[ph])
+NTags == Len(PhaseIdx(phase))
+Cur == Stream(items)[PhaseIdx(phase)[ti]]
+CurIdx == PhaseIdx(phase)[ti]
 
 \* PartialBlock::Start => block_starts.push
 PushStart ==
-  /\ pc = "scan" /\ ti <= Len(Stream(items)) /\ Cur.t = "S"
-  /\ stack' = Append(stack, ti) /\ ti' = ti + 1
-  /\ UNCHANGED <<items, blocks, err, pc>>
+  /\ pc = "scan" /\ ti <= NTags /\ Cur.t = "S"
+  /\ stack' = Append(stack, CurIdx) /\ ti' = ti + 1
+  /\ UNCHANGED <<items, phase, blocks, err, pc>>
 \* PartialBlock::End with an open block => pop, emit block
 PopEnd ==
-  /\ pc = "scan" /\ ti <= Len(Stream(items)) /\ Cur.t = "E" /\ stack # <<>>
-  /\ blocks' = Append(blocks, [s |-> stack[Len(stack)], e |-> ti])
+  /\ pc = "scan" /\ ti <= NTags /\ Cur.t = "E" /\ stack # <<>>
+  /\ blocks' = Append(blocks, [s |-> stack[Len(stack)], e |-> CurIdx])
   /\ stack' = SubSeq(stack, 1, Len(stack) - 1) /\ ti' = ti + 1
-  /\ UNCHANGED <<items, err, pc>>
+  /\ UNCHANGED <<items, phase, err, pc>>
 \* PartialBlock::End with nothing open => Err("Unexpected closed block")
 ErrUnexpectedEnd ==
-  /\ pc = "scan" /\ ti <= Len(Stream(items)) /\ Cur.t = "E" /\ stack = <<>>
+  /\ pc = "scan" /\ ti <= NTags /\ Cur.t = "E" /\ stack = <<>>
   /\ err' = "unexpected_end" /\ pc' = "done"
-  /\ UNCHANGED <<items, ti, stack, blocks>>
+  /\ UNCHANGED <<items, phase, ti, stack, blocks>>
 \* end of comments with an open block => Err("Block ... is not closed")
 ErrUnclosed ==
-  /\ pc = "scan" /\ ti > Len(Stream(items)) /\ stack # <<>>
+  /\ pc = "scan" /\ ti > NTags /\ stack # <<>>
   /\ err' = "unclosed" /\ pc' = "done"
-  /\ UNCHANGED <<items, ti, stack, blocks>>
+  /\ UNCHANGED <<items, phase, ti, stack, blocks>>
+\* (M1 only) one comment kind is done and balanced: pair the next kind on a fresh stack
+NextPhase ==
+  /\ pc = "scan" /\ ti > NTags /\ stack = <<>> /\ phase < Len(KindSeq)
+  /\ phase' = phase + 1 /\ ti' = 1
+  /\ UNCHANGED <<items, stack, blocks, err, pc>>
 \* blocks.sort_by(start position)
 FinishSort ==
-  /\ pc = "scan" /\ ti > Len(Stream(items)) /\ stack = <<>>
+  /\ pc = "scan" /\ ti > NTags /\ stack = <<>> /\ phase = Len(KindSeq)
   /\ blocks' = SortSeq(blocks, LAMBDA a, b : a.s < b.s)
   /\ pc' = "done"
-  /\ UNCHANGED <<items, ti, stack, err>>
+  /\ UNCHANGED <<items, phase, ti, stack, err>>
 
-Next == PushStart \/ PopEnd \/ ErrUnexpectedEnd \/ ErrUnclosed \/ FinishSort
+Next == PushStart \/ PopEnd \/ ErrUnexpectedEnd \/ ErrUnclosed \/ NextPhase \/ FinishSort
 Spec == Init /\ [][Next]_vars /\ WF_vars(Next)
 
 ----------------------------------------------------------------------------
@@ -93,16 +110,27 @@ ExpectedPairs(s) == {[s |-> a, e |-> MatchOf(s, a)] : a \in {n \in 1..Len(s) : s
 ContentItems(s, p) == IF s[p.s].item = s[p.e].item THEN {} ELSE (s[p.s].item + 1)..(s[p.e].item - 1)
 
 Done == pc = "done"
-ErrIffUnbalanced == Done => (err = "none" <=> WellNested(St))
-PairsAreTheMatching == Done /\ err = "none" => {blocks[k] : k \in 1..Len(blocks)} = ExpectedPairs(St)
+ErrIffUnbalanced == Done /\ ~SplitKinds => (err = "none" <=> WellNested(St))
+PairsAreTheMatching == Done /\ ~SplitKinds /\ err = "none" => {blocks[k] : k \in 1..Len(blocks)} = ExpectedPairs(St)
 SourceOrder == Done /\ err = "none" => \A k \in 1..(Len(blocks) - 1) : blocks[k].s < blocks[k + 1].s
 NoGuessing == Done /\ err # "none" => TRUE     \* (the run fails; nothing is reported -- checked on the real code)
 StackIsOpenStarts == pc = "scan" => \A k \in 1..Len(stack) : St[stack[k]].t = "S"
 TypeOK == err \in {"none", "unexpected_end", "unclosed"} /\ pc \in {"scan", "done"}
 Terminates == <>Done
 
+\* M1 is harmless exactly when every kind's own sub-stream is balanced and agrees with the whole matching
+MixedKinds == Cardinality({St[k].ck : k \in 1..Len(St)}) > 1
+SplitAgreesWhenUnmixed == Done /\ SplitKinds /\ ~MixedKinds => (err = "none" <=> WellNested(St))
+ContractErr == IF WellNested(St) THEN "none" ELSE "unbalanced"
+ContractPairs == IF WellNested(St)
+                 THEN LET ps == SortSeq(SetToSeqP(ExpectedPairs(St)), LAMBDA a, b : a.s < b.s)
+                      IN [k \in 1..Len(ps) |-> [s_item |-> St[ps[k].s].item, s_pos |-> St[ps[k].s].pos,
+                                                 e_item |-> St[ps[k].e].item, e_pos |-> St[ps[k].e].pos]]
+                 ELSE <<>>
+
 Emit == Done => PrintT(<<"CASE", ToJson(
-          [items |-> items, err |-> err,
+          [items |-> items, err |-> err, mixed |-> MixedKinds,
+           contract |-> [err |-> ContractErr, blocks |-> ContractPairs],
            blocks |-> IF err = "none"
                       THEN [k \in 1..Len(blocks) |->
                               [s_item |-> St[blocks[k].s].item, s_pos |-> St[blocks[k].s].pos,
